@@ -333,6 +333,35 @@ class NonFiniteSpace(_Base):
             self.one(out, rank, op, arrays, "spaced_desc", [self.chs[ci]] * op.nr, tag, (op.name, "spaced_desc", tag))
 
 
+class OffsetSpace(_Base):
+    """values on a large offset (|mean| / std >= 1e3): global mean / std / min / max reductions lose precision differently
+    when they are re-derived per backend, so the Dask result must still follow the NumPy result."""
+
+    def __init__(self, tier, opnames):
+        self.tier = tier
+        self.shape = SHAPE["quick"]
+        self.opnames = opnames
+        self.offsets = [20000.0, 65000.0, -1.0e6]
+        allc = chunkings(*self.shape)
+        self.chs = allc[1::23] if tier == "quick" else allc[1::7]
+        self.radices = [len(opnames), len(self.offsets), len(self.chs)]
+        self.name = "large_offset_values_4x5"
+        self.size = int(np.prod(self.radices))
+
+    def describe(self, rank):
+        oi, fi, ci = unrank_product(rank, self.radices)
+        return {"op": self.opnames[oi], "offset": self.offsets[fi], "chunks": self.chs[ci]}
+
+    def run(self, lo, hi, out):
+        for rank in range(lo, hi):
+            oi, fi, ci = unrank_product(rank, self.radices)
+            op = self.ops[self.opnames[oi]]
+            off = self.offsets[fi]
+            arrays = [a + off for a in base_arrays(self.shape, "f8", op.nr)]
+            tag = "f8|generic%+g" % off
+            self.one(out, rank, op, arrays, "spaced_desc", [self.chs[ci]] * op.nr, tag, (op.name, "spaced_desc", tag))
+
+
 class DtypeCellsizeSpace(_Base):
     """dtype {float32, int32} x coordinate configuration {unit, res attr} x a coarse set of chunkings."""
 
@@ -572,6 +601,8 @@ def build(tier):
                        + cell1 + ["ndvi", "evi", "true_color"]),
         DtypeCellsizeSpace(tier, terrain + [f for f in focal if "3x5" in f or "5x3" in f] + cell1 + ["ndvi", "savi", "arvi",
                                                                                                    "true_color"] + gens[:3]),
+        OffsetSpace(tier, ["hotspots_3x3", "hotspots_3x5", "hotspots_1x3", "equal_interval_k3", "true_color", "mean_p1", "slope",
+                           "convolution_3x3", "focal_stats_3x3", "ndvi"]),
         JointComputeSpace(tier),
         ScheduleSpace(tier, ["slope", "mean_p2", "apply_mean_3x3", "equal_interval_k3", "ndvi", "true_color", "perlin",
                              "reclassify"] + (["focal_stats_3x3", "hotspots_3x3", "convolution_3x5", "evi", "aspect"]
